@@ -461,7 +461,7 @@ impl<'a> JoinOutput<'a> {
 
         let extracted_results =
             self.extract_results_tuple(&step_results_name, result_pats, None, step_number);
-        let err_to_err = quote! { ::std::result::Result::Err(err) => ::std::result::Result::Err(err) };
+        let err_to_err = quote! { ::std::result::Result::Err(__err) => ::std::result::Result::Err(__err) };
 
         if is_try && (step_number) < max_step_count - 1 {
             if transpose {
@@ -486,7 +486,7 @@ impl<'a> JoinOutput<'a> {
                 quote! {
                     #step_stream
                     #extracted_results
-                    if let ::std::option::Option::Some(__fail_index) = [#( #is_result_successful ),*].iter().position(|#value_name| !#value_name) {
+                    if let ::std::option::Option::Some(__fail_index) = ::std::iter::Iterator::position(&mut [#( #is_result_successful ),*].iter(), |#value_name| !#value_name) {
                         match __fail_index {
                             #( #result_vars_matcher ),*,
                             _ => ::std::unreachable!()
@@ -1144,7 +1144,7 @@ impl<'a> ToTokens for JoinOutput<'a> {
                                 F: #futures_crate_path::future::Future<Output = T> + ::std::marker::Send + 'static,
                                 T: ::std::marker::Send + 'static,
                             {
-                                ::tokio::spawn(__future).map(|#value_name| #value_name.unwrap_or_else(|err| ::std::panic!("tokio JoinHandle failed: {:#?}", err)))
+                                ::tokio::spawn(__future).map(|#value_name| #value_name.unwrap_or_else(|__err| ::std::panic!("tokio JoinHandle failed: {:#?}", __err)))
                             }
                         }
                     )
@@ -1181,18 +1181,18 @@ impl<'a> ToTokens for JoinOutput<'a> {
 
                     Some(
                        quote! {
-                            fn #construct_thread_builder_fn_name(branch_index: usize) -> ::std::thread::Builder {
-                                let thread_name = ::std::format!("join_{}", branch_index);
+                            fn #construct_thread_builder_fn_name(__branch_index: usize) -> ::std::thread::Builder {
+                                let __thread_name = ::std::format!("join_{}", __branch_index);
                                 ::std::thread::Builder::new().name(
                                     ::std::thread::current().name()
                                         .map(
-                                            |current_thread_name|
+                                            |__current_thread_name|
                                                 ::std::format!("{current_thread_name}_{new_thread_name}",
-                                                    current_thread_name=current_thread_name,
-                                                    new_thread_name=thread_name
+                                                    current_thread_name=__current_thread_name,
+                                                    new_thread_name=__thread_name
                                                 )
                                         )
-                                        .unwrap_or(thread_name)
+                                        .unwrap_or(__thread_name)
                                 )
                             }
                         }
